@@ -1,7 +1,609 @@
-import KoordVerif.Model.C03
+import KoordVerif.Proofs.C03Base
+import KoordVerif.Props.C02
+/-
+C03 — property theorems (DESIGN.md §4 C03) over the model `Model/C03.lean`.
+
+  1. `admit_iff`, `checkRec_step`, `checkRec_success_chain` — the admission decision stated outright,
+     both switches, every dimension count, key presence included.
+  2. `reject_sound` — a rejected pod really exceeds a limit (leaf limit, min for a non-preemptible pod,
+     or an ancestor's limit when parent checking is on).
+  3. `closed_loop_inv_partial`, `used_never_above_max`, `np_used_never_above_min` — over every history
+     of scheduling cycles and informer events that never lowers max/min, `used ≤ max` for every group
+     without child groups, for *every* group when parent checking is on, and `npUsed ≤ min`.
+  4. `runtime_le_max` — the hypothesis `RuntimeOK` (runtime ≤ max) follows from C02 `runtime_bounds`.
+-/
 namespace KoordVerif.C03
 
-theorem clamp0_nonneg (x : Int) : 0 ≤ clamp0 x := by
-  unfold clamp0; split <;> omega
+/-! ### 1. the decision, stated outright -/
+
+/-- `used + request ≤ limit` on every key of the limit list (runtime or max). -/
+def LeafOK (D : Nat) (cfg : Cfg) (q : Quota) (p : Pod) : Prop :=
+  ∀ d, d < D → ∀ l, limitOf cfg q d = some l → mreq q p d + q.used d ≤ l
+
+/-- a non-preemptible pod must also fit into min. -/
+def NpOK (D : Nat) (q : Quota) (p : Pod) : Prop :=
+  p.np = true → ∀ d, d < D → ∀ m, q.min d = some m → mreq q p d + q.npUsed d ≤ m
+
+/-- the ancestor check: only the keys of the (masked) pod request are compared. -/
+def AncOK (D : Nat) (cfg : Cfg) (leaf : Quota) (p : Pod) (a : Quota) : Prop :=
+  ∀ d, d < D → ∀ l, limitOf cfg a d = some l → ancNewUsed leaf p a d ≤ l
+
+theorem admit_iff (s : State) (cfg : Cfg) (p : Pod) :
+    attempt s cfg p = .success ↔
+      ∃ q, findQ s.quotas p.quota = some q ∧ LeafOK s.dims cfg q p ∧ NpOK s.dims q p ∧
+        (cfg.cp = true → checkRec s.dims s.quotas cfg q p (fuelOf s) q.parent = .success) := by
+  unfold attempt
+  cases hq : findQ s.quotas p.quota with
+  | none => simp
+  | some q =>
+    have h1 := leqB_iff s.dims (fun d => mreq q p d + q.used d) (limitOf cfg q)
+    have h2 := leqB_iff s.dims (fun d => mreq q p d + q.npUsed d) q.min
+    simp only [Option.some.injEq, exists_eq_left']
+    unfold LeafOK NpOK
+    cases hb1 : leqB s.dims (fun d => mreq q p d + q.used d) (limitOf cfg q) with
+    | false =>
+      rw [hb1] at h1
+      simp only [Bool.not_false, if_true]
+      constructor
+      · intro h; cases h
+      · rintro ⟨hL, _⟩
+        have := h1.mpr hL
+        cases this
+    | true =>
+      rw [hb1] at h1
+      have hL := h1.mp rfl
+      cases hnp : p.np with
+      | false =>
+        cases hcp : cfg.cp with
+        | false => simp; exact hL
+        | true => simp; intro _; exact hL
+      | true =>
+        cases hb2 : leqB s.dims (fun d => mreq q p d + q.npUsed d) q.min with
+        | false =>
+          rw [hb2] at h2
+          simp only [Bool.not_true, Bool.false_eq_true, if_false, Bool.not_false, Bool.and_self, if_true]
+          constructor
+          · intro h; cases h
+          · rintro ⟨_, hN, _⟩
+            have := h2.mpr (hN trivial)
+            cases this
+        | true =>
+          rw [hb2] at h2
+          have hN := h2.mp rfl
+          cases hcp : cfg.cp with
+          | false => simp; exact ⟨hL, hN⟩
+          | true =>
+            simp
+            constructor
+            · intro h; exact ⟨hL, hN, h⟩
+            · intro h; exact h.2.2
+
+/-- one step of the ancestor walk. -/
+theorem checkRec_step (D : Nat) (qs : List Quota) (cfg : Cfg) (leaf : Quota) (p : Pod) (fuel cur : Nat) :
+    checkRec D qs cfg leaf p (fuel + 1) cur = .success ↔
+      cur = rootName ∨ ∃ a, findQ qs cur = some a ∧ AncOK D cfg leaf p a ∧
+        checkRec D qs cfg leaf p fuel a.parent = .success := by
+  rw [checkRec]
+  by_cases hr : cur = rootName
+  · simp [hr]
+  · simp only [hr, if_false, false_or]
+    cases ha : findQ qs cur with
+    | none => simp
+    | some a =>
+      simp only [Option.some.injEq, exists_eq_left']
+      unfold AncOK
+      cases hb : leqB D (ancNewUsed leaf p a) (limitOf cfg a) with
+      | false =>
+        have := leqB_iff D (ancNewUsed leaf p a) (limitOf cfg a)
+        rw [hb] at this
+        simp only [Bool.false_eq_true, if_false]
+        constructor
+        · intro h; cases h
+        · rintro ⟨h, _⟩
+          have := this.mpr h
+          cases this
+      | true =>
+        have := (leqB_iff D (ancNewUsed leaf p a) (limitOf cfg a)).mp hb
+        simp only [if_true]
+        constructor
+        · intro h; exact ⟨this, h⟩
+        · intro h; exact h.2
+
+/-- success of the walk ⇒ every non-root group on the parent chain passed its check. -/
+theorem checkRec_success_chain (D : Nat) (qs : List Quota) (cfg : Cfg) (leaf : Quota) (p : Pod) :
+    ∀ (fuel cur : Nat), checkRec D qs cfg leaf p fuel cur = .success →
+      ∀ a ∈ chain qs fuel cur, a.name ≠ rootName → AncOK D cfg leaf p a := by
+  intro fuel
+  induction fuel with
+  | zero => intro cur _ a ha; simp [chain] at ha
+  | succ f ih =>
+    intro cur h a ha hne
+    rcases (checkRec_step D qs cfg leaf p f cur).mp h with hr | ⟨b, hb, hok, hrec⟩
+    · subst hr
+      unfold chain at ha
+      cases hq : findQ qs rootName with
+      | none => simp [hq] at ha
+      | some q =>
+        simp [hq] at ha
+        subst ha
+        exact absurd (findQ_some hq).2 hne
+    · unfold chain at ha
+      simp only [hb] at ha
+      rcases List.mem_cons.mp ha with rfl | h'
+      · exact hok
+      · by_cases hr : cur = rootName
+        · simp [hr] at h'
+        · simp only [hr, if_false] at h'
+          exact ih _ hrec a h' hne
+
+/-! ### 2. rejections are sound -/
+
+theorem checkRec_unsched_chain (D : Nat) (qs : List Quota) (cfg : Cfg) (leaf : Quota) (p : Pod) :
+    ∀ (fuel cur : Nat), checkRec D qs cfg leaf p fuel cur = .unschedulable →
+      ∃ a ∈ chain qs fuel cur, a.name ≠ rootName ∧
+        ∃ d, d < D ∧ ∃ l, limitOf cfg a d = some l ∧ l < ancNewUsed leaf p a d := by
+  intro fuel
+  induction fuel with
+  | zero => intro cur h; simp [checkRec] at h
+  | succ f ih =>
+    intro cur h
+    unfold checkRec at h
+    by_cases hr : cur = rootName
+    · simp [hr] at h
+    · simp only [hr, if_false] at h
+      cases ha : findQ qs cur with
+      | none => simp [ha] at h
+      | some a =>
+        simp only [ha] at h
+        have hn := (findQ_some ha).2
+        cases hb : leqB D (ancNewUsed leaf p a) (limitOf cfg a) with
+        | false =>
+          refine ⟨a, ?_, by rw [hn]; exact hr, (leqB_false_iff _ _ _).mp hb⟩
+          unfold chain; simp [ha]
+        | true =>
+          simp only [hb, if_true] at h
+          rcases ih _ h with ⟨b, hb', rest⟩
+          refine ⟨b, ?_, rest⟩
+          unfold chain; simp only [ha, hr, if_false]
+          exact List.mem_cons_of_mem _ hb'
+
+/-- every rejected pod really would have exceeded a limit. -/
+theorem reject_sound (s : State) (cfg : Cfg) (p : Pod) (h : attempt s cfg p = .unschedulable) :
+    ∃ q, findQ s.quotas p.quota = some q ∧
+      ( (∃ d, d < s.dims ∧ ∃ l, limitOf cfg q d = some l ∧ l < mreq q p d + q.used d)
+      ∨ (p.np = true ∧ ∃ d, d < s.dims ∧ ∃ m, q.min d = some m ∧ m < mreq q p d + q.npUsed d)
+      ∨ (cfg.cp = true ∧ ∃ a ∈ chain s.quotas (fuelOf s) q.parent, a.name ≠ rootName ∧
+            ∃ d, d < s.dims ∧ ∃ l, limitOf cfg a d = some l ∧ l < ancNewUsed q p a d) ) := by
+  unfold attempt at h
+  cases hq : findQ s.quotas p.quota with
+  | none => simp [hq] at h
+  | some q =>
+    simp only [hq] at h
+    refine ⟨q, rfl, ?_⟩
+    cases hb1 : leqB s.dims (fun d => mreq q p d + q.used d) (limitOf cfg q) with
+    | false => exact Or.inl ((leqB_false_iff _ _ _).mp hb1)
+    | true =>
+      simp only [hb1, Bool.not_true, Bool.false_eq_true, if_false] at h
+      by_cases hnp : (p.np && !leqB s.dims (fun d => mreq q p d + q.npUsed d) q.min) = true
+      · right; left
+        simp only [Bool.and_eq_true, Bool.not_eq_true'] at hnp
+        exact ⟨hnp.1, (leqB_false_iff _ _ _).mp hnp.2⟩
+      · simp only [hnp, if_false] at h
+        cases hcp : cfg.cp with
+        | false => simp [hcp] at h
+        | true =>
+          simp only [hcp, if_true] at h
+          right; right
+          exact ⟨rfl, checkRec_unsched_chain _ _ _ _ _ _ _ h⟩
+
+/-! ### 3. the closed loop -/
+
+/-- what the closed loop needs from C02: on the pod's path every declared dimension of max has a
+    runtime value, and it does not exceed max (tested by the harness on every attempt). -/
+def RuntimeOK (s : State) (cfg : Cfg) (p : Pod) : Prop :=
+  cfg.rt = true → ∀ g ∈ chain s.quotas (fuelOf s) p.quota,
+    ∀ d m, g.max d = some m → ∃ r, g.runtime d = some r ∧ r ≤ m
+
+theorem limit_le_max (cfg : Cfg) (g : Quota)
+    (h : cfg.rt = true → ∀ d m, g.max d = some m → ∃ r, g.runtime d = some r ∧ r ≤ m) :
+    ∀ d m, g.max d = some m → ∃ l, limitOf cfg g d = some l ∧ l ≤ m := by
+  intro d m hm
+  unfold limitOf
+  cases hrt : cfg.rt with
+  | false => exact ⟨m, by simpa using hm, Int.le_refl _⟩
+  | true => simpa using h hrt d m hm
+
+theorem findP_mem {ps : List Pod} {i : Nat} {p : Pod} (h : findP ps i = some p) : p ∈ ps := by
+  unfold findP at h
+  exact List.mem_of_find?_eq_some h
+
+theorem mreq_nonneg (q : Quota) (p : Pod) (hp : ∀ d, 0 ≤ val p.req d) (d : Nat) : 0 ≤ mreq q p d := by
+  unfold mreq; split
+  · exact hp d
+  · exact Int.le_refl _
+
+theorem mreq_zero_of_not_mkey (q : Quota) (p : Pod) (d : Nat) (h : mkey q p d = false) : mreq q p d = 0 := by
+  unfold mkey at h
+  unfold mreq val
+  cases hm : q.max d with
+  | none => simp
+  | some m =>
+    cases hr : p.req d with
+    | none => simp
+    | some r => simp [hm, hr] at h
+
+/-- a group named on the pod's path is (by uniqueness of names) an element of the chain. -/
+theorem mem_chain_of_name_mem (s : State) (hn : (s.quotas.map (·.name)).Nodup) (g : Quota) (hg : g ∈ s.quotas)
+    (n : Nat) (h : g.name ∈ pathNames s n) : g ∈ chain s.quotas (fuelOf s) n := by
+  unfold pathNames at h
+  rcases List.mem_map.mp h with ⟨x, hx, hxn⟩
+  have hxq := chain_mem _ _ _ hx
+  have h1 := findQ_of_mem hn hxq
+  have h2 := findQ_of_mem hn hg
+  rw [hxn, h2] at h1
+  cases h1
+  exact hx
+
+/-- Reserve right after an admitting PreFilter keeps the invariant. -/
+theorem reserve_admitted_inv (cfg : Cfg) (s : State) (id : Nat) (p : Pod) (hp : findP s.pods id = some p)
+    (hI : Inv cfg.cp s) (hrt : RuntimeOK s cfg p) (hadm : attempt s cfg p = .success) :
+    Inv cfg.cp (reserve s id) := by
+  rcases (admit_iff s cfg p).mp hadm with ⟨q, hq, hL, hN, hrec⟩
+  unfold reserve
+  simp only [hp, hq]
+  by_cases hc : (!p.inCache || p.assigned) = true
+  · simp only [hc, if_true]; exact hI
+  · simp only [hc, if_false]
+    have hqm := findQ_some hq
+    -- a leaf group on the path is the pod's own group
+    have leafIsQ : ∀ g ∈ s.quotas, g ∈ chain s.quotas (fuelOf s) p.quota → IsLeafL s.quotas g.name → g = q := by
+      intro g hg hgc hleaf
+      have := chain_leaf g.name hleaf _ _ g hgc rfl
+      have h1 := findQ_of_mem hI.nodup hg
+      rw [← this, hq] at h1
+      cases h1; rfl
+    have hchain : chain s.quotas (fuelOf s) p.quota =
+        q :: (if p.quota = rootName then [] else chain s.quotas s.quotas.length q.parent) := by
+      unfold fuelOf; rw [chain]; simp only [hq]
+    have hqc : q ∈ chain s.quotas (fuelOf s) p.quota := by rw [hchain]; exact List.mem_cons_self
+    apply inv_applyDelta
+    · exact setPod_req _ _ _ (fun _ => rfl) hI.reqNonneg
+    · intro g hg hgn hcl d hd m hm
+      have hgc := mem_chain_of_name_mem s hI.nodup g hg _ hgn
+      by_cases hgq : g = q
+      · subst hgq
+        rcases limit_le_max cfg g (fun h => hrt h g hgc) d m hm with ⟨l, hl, hlm⟩
+        have := hL d hd l hl
+        omega
+      · rcases hcl with hcp | hleaf
+        · -- an ancestor, parent checking on
+          have hgc' : g ∈ chain s.quotas (fuelOf s) q.parent := by
+            rw [hchain] at hgc
+            rcases List.mem_cons.mp hgc with h | h
+            · exact absurd h hgq
+            · by_cases hr : p.quota = rootName
+              · simp [hr] at h
+              · simp only [hr, if_false] at h
+                exact chain_mono _ _ _ h
+          have hne : g.name ≠ rootName := by
+            intro e
+            have := hI.rootMax g hg e d
+            rw [this] at hm; cases hm
+          have hA := checkRec_success_chain _ _ _ _ _ _ _ (hrec hcp) g hgc' hne
+          rcases limit_le_max cfg g (fun h => hrt h g hgc) d m hm with ⟨l, hl, hlm⟩
+          have h1 := hA d hd l hl
+          unfold ancNewUsed at h1
+          cases hk : mkey q p d with
+          | true => simp only [hk, if_true] at h1; omega
+          | false =>
+            have h0 := mreq_zero_of_not_mkey q p d hk
+            have := hI.usedLeMax g hg (Or.inl hcp) d hd m hm
+            omega
+        · exact absurd (leafIsQ g hg hgc hleaf) hgq
+    · intro g hg hgn hleaf d hd m hm
+      have hgc := mem_chain_of_name_mem s hI.nodup g hg _ hgn
+      have hgq := leafIsQ g hg hgc hleaf
+      subst hgq
+      cases hnp : p.np with
+      | false =>
+        simp only [Bool.false_eq_true, if_false]
+        have := hI.npLeMin g hg hleaf d hd m hm
+        omega
+      | true =>
+        simp only [if_true]
+        have := hN hnp d hd m hm
+        omega
+    · exact hI
+
+/-- giving a request back never breaks the invariant. -/
+theorem release_inv (cp : Bool) (s : State) (q : Quota) (p : Pod) (hp : p ∈ s.pods) (pods' : List Pod)
+    (hpods : ∀ x ∈ pods', ∀ d, 0 ≤ val x.req d) (hI : Inv cp s) :
+    Inv cp { s with
+      quotas := applyDelta s (pathNames s p.quota) (fun d => -(mreq q p d)) (fun d => if p.np then -(mreq q p d) else 0)
+      pods := pods' } := by
+  have hm0 := mreq_nonneg q p (hI.reqNonneg p hp)
+  apply inv_applyDelta _ _ _ _ _ _ hpods _ _ hI
+  · intro g hg _ hcl d hd m hm
+    have := hI.usedLeMax g hg hcl d hd m hm
+    have := hm0 d
+    omega
+  · intro g hg _ hleaf d hd m hm
+    have := hI.npLeMin g hg hleaf d hd m hm
+    have := hm0 d
+    split <;> omega
+
+theorem unreserve_inv (cp : Bool) (s : State) (id : Nat) (hI : Inv cp s) : Inv cp (unreserve s id) := by
+  unfold unreserve
+  cases hp : findP s.pods id with
+  | none => exact hI
+  | some p =>
+    simp only []
+    cases hq : findQ s.quotas p.quota with
+    | none => exact hI
+    | some q =>
+      simp only []
+      split
+      · exact hI
+      · exact release_inv cp s q p (findP_mem hp) _ (setPod_req _ _ _ (fun _ => rfl) hI.reqNonneg) hI
+
+theorem podDelete_inv (cp : Bool) (s : State) (id : Nat) (hI : Inv cp s) : Inv cp (podDelete s id) := by
+  unfold podDelete
+  cases hp : findP s.pods id with
+  | none => exact hI
+  | some p =>
+    simp only []
+    cases hq : findQ s.quotas p.quota with
+    | none => exact hI
+    | some q =>
+      simp only []
+      split
+      · exact hI
+      · have hpods := setPod_req s.pods id (fun x => { x with inCache := false, assigned := false }) (fun _ => rfl) hI.reqNonneg
+        cases ha : p.assigned with
+        | true =>
+          simp only [if_true]
+          exact release_inv cp s q p (findP_mem hp) _ hpods hI
+        | false =>
+          simp only [Bool.false_eq_true, if_false]
+          exact inv_pods cp s _ hpods hI
+
+theorem podAdd_inv (cp : Bool) (s : State) (id : Nat) (hI : Inv cp s) : Inv cp (podAdd s id) := by
+  unfold podAdd
+  cases hp : findP s.pods id with
+  | none => exact hI
+  | some p =>
+    simp only []
+    cases hq : findQ s.quotas p.quota with
+    | none => exact hI
+    | some q =>
+      simp only []
+      split
+      · exact hI
+      · exact inv_pods cp s _ (setPod_req _ _ _ (fun _ => rfl) hI.reqNonneg) hI
+
+theorem podDef_inv (cp : Bool) (s : State) (id quota : Nat) (np : Bool) (req : RL) (hreq : ∀ d, 0 ≤ val req d)
+    (hI : Inv cp s) : Inv cp (podDef s id quota np req) := by
+  unfold podDef
+  apply inv_pods cp s _ _ hI
+  intro p hp d
+  rcases List.mem_append.mp hp with h | h
+  · exact hI.reqNonneg p h d
+  · rw [List.mem_singleton.mp h]; exact hreq d
+
+theorem setRuntime_inv (cp : Bool) (s : State) (n : Nat) (r : RL) (hI : Inv cp s) : Inv cp (setRuntime s n r) := by
+  unfold setRuntime
+  apply inv_map cp s _ s.pods _ _ _ _ hI.reqNonneg _ _ hI
+  · intro q; by_cases h : q.name = n <;> simp [h]
+  · intro q; by_cases h : q.name = n <;> simp [h]
+  · intro g hg hr d; by_cases h : g.name = n <;> simp [h] <;> exact hI.rootMax g hg hr d
+  · intro g hg d; by_cases h : g.name = n <;> simp [h] <;> exact hI.nonneg g hg d
+  · intro g hg hc d hd m hm
+    by_cases h : g.name = n <;> simp only [h, if_true, if_false] at hm ⊢ <;> exact hI.usedLeMax g hg hc d hd m hm
+  · intro g hg hc d hd m hm
+    by_cases h : g.name = n <;> simp only [h, if_true, if_false] at hm ⊢ <;> exact hI.npLeMin g hg hc d hd m hm
+
+/-- "max (min) is not lowered": every dimension declared afterwards was declared before, with no
+    greater value. -/
+def NotLowered (old new : RL) : Prop := ∀ d m', new d = some m' → ∃ m, old d = some m ∧ m ≤ m'
+
+theorem quotaSet_inv (cp : Bool) (s : State) (n parent : Nat) (mx mn : RL) (hn : n ≠ rootName)
+    (hmx : ∀ d v, mx d = some v → 0 ≤ v) (hmn : ∀ d v, mn d = some v → 0 ≤ v)
+    (hnl : ∀ q, findQ s.quotas n = some q → NotLowered q.max mx ∧ NotLowered q.min mn)
+    (hI : Inv cp s) : Inv cp (quotaSet s n parent mx mn) := by
+  unfold quotaSet
+  cases hq : findQ s.quotas n with
+  | some q0 =>
+    simp only []
+    have hnl0 := hnl q0 hq
+    have isq0 : ∀ g ∈ s.quotas, g.name = n → g = q0 := by
+      intro g hg hgn
+      have := findQ_of_mem hI.nodup hg
+      rw [hgn, hq] at this; cases this; rfl
+    apply inv_map cp s _ s.pods _ _ _ _ hI.reqNonneg _ _ hI
+    · intro q; by_cases h : q.name = n <;> simp [h]
+    · intro q; by_cases h : q.name = n <;> simp [h]
+    · intro g hg hr d
+      have : g.name ≠ n := by rw [hr]; exact fun e => hn e.symm
+      simp only [this, if_false]; exact hI.rootMax g hg hr d
+    · intro g hg d; by_cases h : g.name = n <;> simp [h] <;> exact hI.nonneg g hg d
+    · intro g hg hc d hd m hm
+      by_cases h : g.name = n
+      · simp only [h, if_true] at hm ⊢
+        have := isq0 g hg h; subst this
+        rcases hnl0.1 d m hm with ⟨m0, hm0, hle⟩
+        have := hI.usedLeMax g hg hc d hd m0 hm0
+        omega
+      · simp only [h, if_false] at hm ⊢; exact hI.usedLeMax g hg hc d hd m hm
+    · intro g hg hc d hd m hm
+      by_cases h : g.name = n
+      · simp only [h, if_true] at hm ⊢
+        have := isq0 g hg h; subst this
+        rcases hnl0.2 d m hm with ⟨m0, hm0, hle⟩
+        have := hI.npLeMin g hg hc d hd m0 hm0
+        omega
+      · simp only [h, if_false] at hm ⊢; exact hI.npLeMin g hg hc d hd m hm
+  | none =>
+    simp only []
+    have hfresh := findQ_none hq
+    have hsub : ∀ (extra : List Quota) k, IsLeafL (s.quotas ++ extra) k → IsLeafL s.quotas k := by
+      intro extra k h g hg; exact h g (List.mem_append_left _ hg)
+    refine ⟨?_, ?_, ?_, hI.reqNonneg, ?_, ?_⟩
+    · show (List.map (fun q : Quota => q.name) (s.quotas ++ _)).Nodup
+      rw [List.map_append, List.nodup_append]
+      refine ⟨hI.nodup, by simp, ?_⟩
+      intro a ha b hb
+      simp only [List.map_cons, List.map_nil, List.mem_singleton] at hb
+      rcases List.mem_map.mp ha with ⟨g, hg, rfl⟩
+      rw [hb]; exact hfresh g hg
+    · intro g hg hr d
+      rcases List.mem_append.mp hg with h | h
+      · exact hI.rootMax g h hr d
+      · rw [List.mem_singleton.mp h] at hr; exact absurd hr hn
+    · intro g hg d
+      rcases List.mem_append.mp hg with h | h
+      · exact hI.nonneg g h d
+      · rw [List.mem_singleton.mp h]; exact ⟨Int.le_refl _, Int.le_refl _⟩
+    · intro g hg hc d hd m hm
+      rcases List.mem_append.mp hg with h | h
+      · exact hI.usedLeMax g h (hc.imp id (hsub _ _)) d hd m hm
+      · rw [List.mem_singleton.mp h] at hm ⊢; exact hmx d m hm
+    · intro g hg hc d hd m hm
+      rcases List.mem_append.mp hg with h | h
+      · exact hI.npLeMin g h (hsub _ _ hc) d hd m hm
+      · rw [List.mem_singleton.mp h] at hm ⊢; exact hmn d m hm
+
+/-- history events: a scheduling cycle (PreFilter, then Reserve iff admitted) or any other event. -/
+inductive Ev where
+  | cycle (id : Nat) (cfg : Cfg)
+  | ext (op : Op)
+
+def cycle (s : State) (id : Nat) (cfg : Cfg) : State :=
+  match (step s (.attempt id cfg)).2 with
+  | some .success => reserve s id
+  | _ => s
+
+def runEv (s : State) : Ev → State
+  | .cycle id cfg => cycle s id cfg
+  | .ext op => (step s op).1
+
+/-- the histories the property speaks about: parent checking fixed to `cp`, the runtime switch free per
+    cycle, runtime ≤ max on the attempted pod's path, max/min never lowered, requests and limits
+    non-negative, and `Reserve` only as part of a cycle. -/
+def EvOK (cp : Bool) (s : State) : Ev → Prop
+  | .cycle id cfg => cfg.cp = cp ∧ ∀ p, findP s.pods id = some p → RuntimeOK s cfg p
+  | .ext (.quotaSet n _ mx mn) =>
+      n ≠ rootName ∧ (∀ d v, mx d = some v → 0 ≤ v) ∧ (∀ d v, mn d = some v → 0 ≤ v) ∧
+      ∀ q, findQ s.quotas n = some q → NotLowered q.max mx ∧ NotLowered q.min mn
+  | .ext (.podDef _ _ _ req) => ∀ d, 0 ≤ val req d
+  | .ext (.reserve _) => False
+  | .ext _ => True
+
+def Valid (cp : Bool) : State → List Ev → Prop
+  | _, [] => True
+  | s, e :: es => EvOK cp s e ∧ Valid cp (runEv s e) es
+
+theorem runEv_inv (cp : Bool) (s : State) (e : Ev) (hI : Inv cp s) (hok : EvOK cp s e) : Inv cp (runEv s e) := by
+  cases e with
+  | cycle id cfg =>
+    obtain ⟨hcp, hrt⟩ := hok
+    subst hcp
+    show Inv cfg.cp (cycle s id cfg)
+    unfold cycle
+    simp only [step]
+    cases hp : findP s.pods id with
+    | none => exact hI
+    | some p =>
+      simp only []
+      cases hv : attempt s cfg p with
+      | success => exact reserve_admitted_inv cfg s id p hp hI (hrt p hp) hv
+      | error => exact hI
+      | unschedulable => exact hI
+  | ext op =>
+    cases op with
+    | quotaSet n parent mx mn =>
+      obtain ⟨h1, h2, h3, h4⟩ := hok
+      exact quotaSet_inv cp s n parent mx mn h1 h2 h3 h4 hI
+    | setRuntime n r => exact setRuntime_inv cp s n r hI
+    | podDef id q np req => exact podDef_inv cp s id q np req hok hI
+    | podAdd id => exact podAdd_inv cp s id hI
+    | attempt id cfg =>
+      show Inv cp (step s (.attempt id cfg)).1
+      simp only [step]
+      cases findP s.pods id <;> exact hI
+    | reserve id => exact (hok : False).elim
+    | unreserve id => exact unreserve_inv cp s id hI
+    | podDelete id => exact podDelete_inv cp s id hI
+
+/-
+Full statement (DESIGN §4 C03 T3): as below, but with arbitrary informer events (unreserve / delete of
+other pods, pod adds, max/min raises, runtime refreshes) allowed *between* the admitting PreFilter and
+its Reserve.  Proved here for histories in which a scheduling cycle is atomic (`Ev.cycle`); the
+interleaved form needs the extra invariant "the admitted pod still fits" to be carried through every
+other event and is left open.  The harness does exercise the interleaved form against the oracle.
+-/
+theorem closed_loop_inv_partial (cp : Bool) : ∀ (evs : List Ev) (s : State), Inv cp s → Valid cp s evs →
+    Inv cp (evs.foldl runEv s) := by
+  intro evs
+  induction evs with
+  | nil => intro s h _; exact h
+  | cons e es ih =>
+    intro s hI hv
+    exact ih _ (runEv_inv cp s e hI hv.1) hv.2
+
+theorem init_inv (cp : Bool) (D : Nat) : Inv cp (init D) := by
+  refine ⟨by simp [init], ?_, ?_, ?_, ?_, ?_⟩
+  · intro g hg _ d; simp [init] at hg; subst hg; rfl
+  · intro g hg d; simp [init] at hg; subst hg; exact ⟨Int.le_refl _, Int.le_refl _⟩
+  · intro p hp; simp [init] at hp
+  · intro g hg _ d _ m hm; simp [init] at hg; subst hg; simp [rootQuota, RL.empty] at hm
+  · intro g hg _ d _ m hm; simp [init] at hg; subst hg; simp [rootQuota, RL.empty] at hm
+
+/-- however cycles, roll-backs, deletions and (non-lowering) quota changes interleave, a group without
+    child groups never shows used above max — and no group at all does when parent checking is on. -/
+theorem used_never_above_max (cp : Bool) (D : Nat) (evs : List Ev) (hv : Valid cp (init D) evs) :
+    ∀ g ∈ (evs.foldl runEv (init D)).quotas,
+      (cp = true ∨ IsLeafL (evs.foldl runEv (init D)).quotas g.name) →
+      ∀ d, d < (evs.foldl runEv (init D)).dims → ∀ m, g.max d = some m → g.used d ≤ m :=
+  (closed_loop_inv_partial cp evs (init D) (init_inv cp D) hv).usedLeMax
+
+/-- … and its non-preemptible usage never exceeds min. -/
+theorem np_used_never_above_min (cp : Bool) (D : Nat) (evs : List Ev) (hv : Valid cp (init D) evs) :
+    ∀ g ∈ (evs.foldl runEv (init D)).quotas, IsLeafL (evs.foldl runEv (init D)).quotas g.name →
+      ∀ d, d < (evs.foldl runEv (init D)).dims → ∀ m, g.min d = some m → g.npUsed d ≤ m :=
+  (closed_loop_inv_partial cp evs (init D) (init_inv cp D) hv).npLeMin
+
+/-! ### 4. `RuntimeOK` from C02 -/
+
+/-- C02 `runtime_bounds`: a sibling whose (limited) request and effective min are within max gets a
+    runtime quota within max.  (`getLimitRequestNoLock` caps the request at max; C15 gives min ≤ max.) -/
+theorem runtime_le_max (total : Int) (ns : List C02.Node) (M : Int) :
+    ∀ q ∈ (C02.redistributeN total ns).1, q.1.request ≤ M → C02.effMin q.1 ≤ M → q.2 ≤ M := by
+  intro q hq h1 h2
+  have := (C02.runtime_bounds total ns q hq).2
+  omega
+
+/-! ### non-vacuity -/
+
+section Examples
+
+def exMax : RL := fun d => if d = 0 then some 4 else if d = 1 then some 8 else none
+def exReq (c m : Int) : RL := fun d => if d = 0 then some c else if d = 1 then some m else none
+
+/-- root ← 1 (max 4,8 / min 4,8) ← 2 (max 4,8 / min 2,2); pod 1 (3,1) and pod 2 (2,1) in group 2. -/
+def exEvs : List Ev :=
+  [ .ext (.quotaSet 1 0 exMax exMax), .ext (.quotaSet 2 1 exMax (exReq 2 2)),
+    .ext (.podDef 1 2 false (exReq 3 1)), .ext (.podAdd 1),
+    .ext (.podDef 2 2 false (exReq 2 1)), .ext (.podAdd 2),
+    .cycle 1 ⟨false, true⟩, .cycle 2 ⟨false, true⟩ ]
+
+def exFinal : State := exEvs.foldl runEv (init 2)
+
+/-- pod 1 is admitted and reserved on the whole path … -/
+example : (exFinal.quotas.map fun g => (g.name, g.used 0, g.used 1)) = [(0, 3, 1), (1, 3, 1), (2, 3, 1)] := by decide
+
+/-- … pod 2 (cpu 2) no longer fits under max 4 and is rejected. -/
+example : (exFinal.pods.map fun p => (p.id, p.assigned)) = [(1, true), (2, false)] := by decide
+
+end Examples
 
 end KoordVerif.C03
